@@ -1677,6 +1677,11 @@ func (p *Posix) CompleteMultipartUpload(ctx context.Context, input *s3.CompleteM
 	vEnabled := p.isBucketVersioningEnabled(vStatus)
 
 	d, err := os.Stat(objname)
+	if err == nil && d.IsDir() {
+		// as in PutObject: the key without the trailing "/" cannot be
+		// stored next to the directory (object) of that name
+		return nil, s3err.GetAPIError(s3err.ErrExistingObjectIsDirectory)
+	}
 
 	// if the versioninng is enabled first create the file object version;
 	// with suspended versioning the object that is replaced is kept when it
